@@ -174,7 +174,7 @@ def check(an: Analysis) -> None:
             if w is not None:
                 ob4.fail(f, m.ast, "an exception outside the caught set can be retried", CFG.show_path(w))
         # ------------------------------------------------------------ C14.5-7 delay dispatch (typed scenarios; match or if/isinstance)
-        from ..kinds import A_FLOAT, A_FUNC, A_INT, Scenario
+        from ..kinds import A_FLOAT, A_FUNC, A_INT, Abs, Scenario
 
         sleep_callee = "asyncio.sleep" if is_async else "time.sleep"
         sleeps = [n for n in g.nodes if n.kind == "call" and an.callee(f, n.ast) == sleep_callee]
@@ -194,6 +194,7 @@ def check(an: Analysis) -> None:
         ann_txt = ast.unparse(ann) if ann is not None else ""
         rh_entry = next(n for n in g.nodes if n.kind == "handler" and n.ast is rh)
         kinds_of_delay = [("None", None), ("a float", A_FLOAT), ("a callable", A_FUNC)]
+        douter = Deps(prog, outer)
         if "float" in ann_txt:
             kinds_of_delay.insert(1, ("an int", A_INT))
         for label, value in kinds_of_delay:
@@ -201,6 +202,8 @@ def check(an: Analysis) -> None:
             def base(e: ast.AST, value=value):
                 if is_name(e, DELAY):
                     return value
+                if isinstance(e, ast.Name) and isinstance(e.ctx, ast.Load) and e.id not in (DELAY, LIMIT, CATCHING) and d.owner(e.id) is outer and _depends_on(douter, e, DELAY):
+                    return _captured_value(an, outer, f, e.id, DELAY, value)
                 if guard is not None and isinstance(e, ast.Compare) and e is guard.ast:
                     return pol == "T"  # a retry is being made
                 if matcher_ok and e is anys[0].ast:
@@ -224,7 +227,8 @@ def check(an: Analysis) -> None:
                     arg = unwrap(vals_[0])  # the value computed for this kind of delay (e.g. by an inlined helper)
                 ob7.inst(f, sn.ast, f"delay is {label}")
                 if value is A_FUNC:
-                    ok = isinstance(arg, ast.Call) and d.origins(arg.func) <= {f"param:{DELAY}"} and bool(d.origins(arg.func)) and len(arg.args) == 2 and not arg.keywords and is_name(arg.args[1], exc_name or "")
+                    is_delay_fn = isinstance(arg, ast.Call) and ((d.origins(arg.func) <= {f"param:{DELAY}"} and bool(d.origins(arg.func))) or sc.value_at(sn, arg.func) is value)
+                    ok = is_delay_fn and len(arg.args) == 2 and not arg.keywords and is_name(arg.args[1], exc_name or "")
                     if ok and form_b:
                         from ..domains import linear_form
 
@@ -255,6 +259,15 @@ def check(an: Analysis) -> None:
                             else:
                                 ob7.fail(f, sn.ast, f"the first pause is computed for attempt number {first}: the counter is {at_first_failure} when the first attempt fails, advanced {lo_} time(s) before the delay function is applied to `{stmt_text(arg.args[0], 30)}` (attempt numbers start at 1)")
                 else:
+                    fv = sc.value_at(sn, arg.func) if isinstance(arg, ast.Call) else NOVALUE
+                    const_fn = prog.functions.get(fv.tag[4:]) if isinstance(fv, Abs) and fv.tag.startswith("def:") else None
+                    if const_fn is not None:
+                        # the number was wrapped into a function at decoration time: that function must hand the number back
+                        dcf = Deps(prog, const_fn)
+                        rets_ = [r for r in const_fn.own_nodes() if isinstance(r, ast.Return)]
+                        if not rets_ or not all(r.value is not None and dcf.origins(r.value) and dcf.origins(r.value) <= {f"param:{DELAY}"} for r in rets_):
+                            ob7.fail(f, sn.ast, "the numeric arm does not pause for the configured number")
+                        continue
                     if isinstance(arg, ast.Call) and d.origins(arg.func) <= {f"param:{DELAY}"} and d.origins(arg.func):
                         ob5.fail(f, sn.ast, f"delay is declared `{ann_txt}` but {label} is not matched by the numeric arm: it falls into the callable arm and is *called* (TypeError on the first failure)")
                     elif not (arg is not None and d.origins(arg) <= {f"param:{DELAY}"} and d.origins(arg)):
@@ -296,6 +309,34 @@ def check(an: Analysis) -> None:
     from . import c10
 
     borrow(an, c10.check, {"C10.1": "C14.8"}, keep=lambda f: "log_error" in f.at or "ScopeMetrics.log" in f.at)
+
+
+def _depends_on(douter: Deps, e: ast.Name, param: str) -> bool:
+    return f"param:{param}" in douter.of(e)
+
+
+def _captured_value(an: Analysis, outer: FunctionInfo, inner: FunctionInfo, name: str, delay_param: str, value: object) -> object:
+    """Value of a variable of the wrapper factory that the wrapper captures, in the situation `delay` = value: the factory is
+    evaluated once, at decoration time (a delay normalised there - None / number / function turned into None or a function -
+    is as good as a dispatch at every failure)."""
+    from ..kinds import Scenario
+
+    cache = an.__dict__.setdefault("_c14_outer", {})
+    key = (outer.qualname, id(value))
+    if key not in cache:
+        go = an.cfg(outer)
+
+        def env_o(e: ast.AST):
+            if is_name(e, delay_param):
+                return value
+            return NOVALUE
+
+        cache[key] = (go, Scenario(go, Deps(an.prog, outer), env_o))
+    go, sco = cache[key]
+    at = next((n for n in go.nodes if n.kind == "def" and n.ast is inner.node), None)
+    if at is None:
+        return NOVALUE
+    return sco.value_at(at, ast.Name(id=name, ctx=ast.Load()))
 
 
 def _counter_budget(an: Analysis, ob1, f: FunctionInfo, g: CFG, d: Deps, loop: ast.AST, head: Node, call: Node, tr: ast.Try, LIMIT: str = "limit"):
